@@ -7,8 +7,8 @@ mkdir -p sweepfails
 for s in $SEEDS; do
   for p in $PROPS; do
     t0=$(date +%s)
-    VERIF_KEEP_FAILS=$PWD/sweepfails ./check $p --tier $TIER --seed $s > sweep_$p_$s.log 2>&1; rc=$?
-    echo "seed=$s $p tier=$TIER rc=$rc $(( $(date +%s) - t0 ))s $(grep -c '^VIOLATION' sweep_$p_$s.log) viol"
-    [ $rc -ne 0 ] && grep -h "VIOLATION" sweep_$p_$s.log | head -2
+    VERIF_KEEP_FAILS=$PWD/sweepfails ./check $p --tier $TIER --seed $s > sweep_${p}_${s}.log 2>&1; rc=$?
+    echo "seed=$s $p tier=$TIER rc=$rc $(( $(date +%s) - t0 ))s $(grep -c '^VIOLATION' sweep_${p}_${s}.log) viol"
+    [ $rc -ne 0 ] && grep -h "VIOLATION" sweep_${p}_${s}.log | head -2
   done
 done
